@@ -35,7 +35,7 @@ LEVEL_NOTE = "Trusted: vlib.linear.expm (25-term Taylor, scaling and squaring), 
 def budget(tier: str) -> dict:
     if tier == "quick":
         return {"examples": 500}
-    return {"examples": 1000, "shards": 16}
+    return {"examples": 1000, "shards": 16, "fuzz_seconds": 45}
 
 
 # ----------------------------------------------------------------------
